@@ -417,6 +417,11 @@ func (x *Exec) enterLoop(fr *Frame, lr *loopRec, st *State) *State {
 			g := x.evalClause(x.invCtx(fr, lr, st), cl)
 			x.assume(st, g)
 		}
+		for _, cl := range ls.Assumes {
+			g := x.evalClause(x.invCtx(fr, lr, st), cl)
+			x.assume(st, g)
+			x.note(fmt.Sprintf("ASSUMED (not proved) at loop %s of %s: %s", name, FuncKey(fr.fn), cl.Src))
+		}
 	}
 	x.autoInvariants(fr, lr, st, pre)
 	x.cover(st, "loop-"+name)
